@@ -102,6 +102,11 @@ class Prop:
             if any(q - p_ > 200 for p_, q in zip(pts, pts[1:])):
                 cuts = list(range(150, nchar, 150))
             sents = gen.render(b, seq=str(rng.randint(1, 9)) if cuts else '', cuts=cuts)
+            if cuts and len(b) > 12 and rng.random() < 0.3:
+                # cut at arbitrary bit positions: every fragment padded on its own, with its own fill bits
+                bc = sorted(rng.sample(range(1, len(b)), min(len(cuts), len(b) - 1)))
+                if all(q - p_ <= 1200 for p_, q in zip([0] + bc, bc + [len(b)])):
+                    sents = gen.render_ragged(b, bc, seq=str(rng.randint(1, 9)))
             rng.shuffle(sents)
             lines.append('decode 0 ' + ' '.join(x.hex() for x in sents))
             meta.append((c, f + '/sentences', b))
